@@ -164,6 +164,15 @@ class LangEval:
                 mode = d.split(".")[1]
                 self.regexes.append((node.args[0].value, mode))
                 return rx.from_regex(node.args[0].value, mode)
+            # str predicates on the parameter, as languages over the
+            # checker's alphabet (ASCII + one class for everything else; the
+            # non-ASCII class is taken as accepted: some of it is)
+            if isinstance(node.func, ast.Attribute) and not node.args and \
+                    self.is_param(node.func.value) and \
+                    node.func.attr in STR_PREDICATES:
+                pat = STR_PREDICATES[node.func.attr]
+                self.regexes.append((pat, "fullmatch"))
+                return rx.from_regex(pat, "fullmatch")
             # pattern given by a module constant, or a precompiled pattern
             # object: NAME = re.compile("...") ; NAME.match(string)
             pat = mode = None
@@ -215,6 +224,21 @@ class LangEval:
                     return l.complement()
         raise Unsupported("validator %s: test %s" % (self.func.qualname,
                                                      unparse(node)[:70]))
+
+
+STR_PREDICATES = {
+    # str.isprintable(): true for the empty string
+    "isprintable": r"(?:[ -~]|[^\x00-\x7f])*",
+    "isdigit": r"(?:[0-9]|[^\x00-\x7f])+",
+    "isdecimal": r"(?:[0-9]|[^\x00-\x7f])+",
+    "isnumeric": r"(?:[0-9]|[^\x00-\x7f])+",
+    "isalpha": r"(?:[A-Za-z]|[^\x00-\x7f])+",
+    "isalnum": r"(?:[A-Za-z0-9]|[^\x00-\x7f])+",
+    "isascii": r"[\x00-\x7f]*",
+    "isspace": r"(?:[ \t\n\r\x0b\x0c\x1c-\x1f]|[^\x00-\x7f])+",
+    "isupper": r"(?:[^a-z])*[A-Z](?:[^a-z])*",
+    "islower": r"(?:[^A-Z])*[a-z](?:[^A-Z])*",
+}
 
 
 def accept_language(repo, func):
